@@ -247,12 +247,45 @@ def run(ctx):
     else:
         r.fail("C19.boundary", ar.key + ":handlers", "apply_rules no longer catches ClassifyError and ConfigurationError (has %s)" % names, ar.loc())
     # main continues with the remaining files unless told to stop: the stop flag is only truthy for the configuration/local-rules errors
-    rets = [n for n in walk_function(ar.node) if isinstance(n, ast.Return) and isinstance(n.value, ast.Tuple) and n.value.elts]
-    for n in rets:
-        last = norm(n.value.elts[-1])
+    # (the flag is the last element of the result tuple; main() breaks out of its file loop when it is truthy.  Its value is
+    # resolved through module-level constants and one level of helper calls, so it does not matter where the tuple is built.)
+    def module_const(mod, name):
+        vals = [st.value for st in mod.tree.body if isinstance(st, ast.Assign) and any(isinstance(t, ast.Name) and t.id == name for t in st.targets)]
+        if len(vals) == 1 and isinstance(vals[0], ast.Constant):
+            return vals[0].value
+        return "?"
+
+    def flag_values(fi, ret, depth=0):
+        v = ret.value
+        if isinstance(v, ast.Tuple) and v.elts:
+            last = v.elts[-1]
+            if isinstance(last, ast.Constant):
+                return {last.value}
+            if isinstance(last, ast.Name):
+                return {module_const(fi.module, last.id)}
+            return {"?"}
+        if isinstance(v, ast.Call) and isinstance(v.func, ast.Name) and depth < 2:
+            ent = p.resolve_expr(fi.module, v.func)
+            if ent and ent[0] == "func":
+                out = set()
+                for rr in walk_function(ent[1].node):
+                    if isinstance(rr, ast.Return) and rr.value is not None:
+                        out |= flag_values(ent[1], rr, depth + 1)
+                return out or {"?"}
+        return {"?"}
+
+    n_flag = 0
+    for n in [x for x in walk_function(ar.node) if isinstance(x, ast.Return) and x.value is not None]:
         hs = facts.in_handler(n)
-        if hs and hs[0] == "ClassifyError" and last != "bKeepProcessingFiles":
-            r.fail("C19.boundary", ar.key + ":classify-error-stops-run", "a file that fails to parse stops the whole run (flag %s)" % last, ar.loc(n))
+        if hs and hs[0] == "ClassifyError":
+            n_flag += 1
+            vals = flag_values(ar, n)
+            if vals != {False}:
+                r.fail("C19.boundary", ar.key + ":classify-error-stops-run", "the result returned for a file that fails to parse carries the stop flag %s (must be the falsy keep-going constant): main() leaves its file loop and the remaining files are never analysed" % sorted(str(x) for x in vals), ar.loc(n))
+            else:
+                r.ok("C19.boundary", ar.key + ":classify-error-continues", "a rejected file returns the keep-going flag: the remaining files are still processed")
+    if not n_flag:
+        r.fail("C19.boundary", ar.key + ":classify-error-stops-run", "the ClassifyError handler of apply_rules does not return a per-file result", ar.loc())
     cls_raises = 0
     for fi in p.functions.values():
         mnm = fi.module.name
@@ -479,6 +512,12 @@ def _unbound_in(fi):
 
 
 VARIANTS = [
+    Variant("C19", "parse-error result built by a helper that returns the stop flag", "fire",
+            [("vsg/apply_rules.py", "        sOutputErr = f\"Error while processing {sFileName}: {e.message}\"\n        return fExitStatus, testCase, dJsonEntry, sOutputStd, sOutputErr, bKeepProcessingFiles", "        return create_error_result(sFileName, e, testCase)"),
+             ("vsg/apply_rules.py", "def create_junit_testcase(sVhdlFileName, oException):", "def create_error_result(sFileName, oException, testCase):\n    dJsonEntry = {\"file_path\": sFileName, \"violations\": []}\n    return True, testCase, dJsonEntry, \"\", f\"Error while processing {sFileName}: {oException.message}\", bStopProcessingFiles\n\n\ndef create_junit_testcase(sVhdlFileName, oException):")], rule="C19.boundary", key="classify-error-stops-run"),
+    Variant("C19", "twin: parse-error result built by a helper that returns the keep-going flag", "silent",
+            [("vsg/apply_rules.py", "        sOutputErr = f\"Error while processing {sFileName}: {e.message}\"\n        return fExitStatus, testCase, dJsonEntry, sOutputStd, sOutputErr, bKeepProcessingFiles", "        return create_error_result(sFileName, e, testCase)"),
+             ("vsg/apply_rules.py", "def create_junit_testcase(sVhdlFileName, oException):", "def create_error_result(sFileName, oException, testCase):\n    dJsonEntry = {\"file_path\": sFileName, \"violations\": []}\n    return True, testCase, dJsonEntry, \"\", f\"Error while processing {sFileName}: {oException.message}\", bKeepProcessingFiles\n\n\ndef create_junit_testcase(sVhdlFileName, oException):")]),
     Variant("C19", "analysis reads a rule attribute nobody defines", "fire",
             [("vsg/rules/previous_line.py", "            if isinstance(lTokens[0], parser.blank_line) or token_is_comment(lTokens[0]):\n                continue", "            if isinstance(lTokens[0], parser.blank_line) or (token_is_comment(lTokens[0]) and self.allow_comment):\n                continue")], rule="C19.attr"),
     Variant("C19", "fix_only look-up loses its KeyError guard", "fire",
